@@ -454,8 +454,20 @@ def b4_matching_complete(ctx, classes=((ISO, "_are_isomorphic"), (PSF, "_find"))
         if len(ps) != 4:
             raise AnalysisError(f"B4: {cls}._extend_stack(i1, n, in_use, stack) expected")
         i1, n, used, stack = ps
-        pat = PT.find_all(g, f"for _M_i in _E_range:\n    if _M_i in {used}:\n        continue\n    {stack}.append(({i1} + 1, _M_i, {used}.union({{_M_i}})))")
-        if pat and pat[0][1]["_E_range"] in (f"range({n} - 1, -1, -1)", f"range({n})", f"reversed(range({n}))"):
+        okx = False
+        for lp in walk_local(g):
+            if not isinstance(lp, ast.For) or not isinstance(lp.target, ast.Name) or norm(lp.iter) not in (f"range({n} - 1, -1, -1)", f"range({n})", f"reversed(range({n}))"):
+                continue
+            iv = lp.target.id
+            pushes = [c for c in walk_local(lp) if isinstance(c, ast.Call) and norm(c.func) == f"{stack}.append" and len(c.args) == 1]
+            for c in pushes:
+                if PT.match(PT.compile_pattern(f"({i1} + 1, {iv}, {used}.union({{{iv}}}))"), c.args[0]) is None and \
+                        PT.match(PT.compile_pattern(f"({i1} + 1, {iv}, {used} | {{{iv}}})"), c.args[0]) is None:
+                    continue
+                gs = {(norm(t), p) for t, p in C.flatten_guards(C.guards(g, c, within=lp))}
+                if gs in ({(f"{iv} in {used}", False)}, {(f"{iv} not in {used}", True)}):
+                    okx = True
+        if okx:
             ctx.ok("B4", f"{cls}._extend_stack offers every position of the second rule not yet in use, for the next position of the first, and marks it used")
         else:
             ctx.violation("B4", g, f"{cls}._extend_stack must push (i1 + 1, i, in_use ∪ {{i}}) for every i of range(n) not in in_use: otherwise a child is matched twice or a "
